@@ -433,7 +433,9 @@ func coGenLarge(rng *rand.Rand, n int, shape int) C09Case {
 	seq := rng.Uint32()
 	ms := int64(1500000000)*1000 + int64(rng.Intn(1000))
 	var c C09Case
-	addRec := func(typ uint16, body string) { c.Recs = append(c.Recs, coal.Rec{Typ: typ, Seq: seq, Ms: ms, Body: body}) }
+	addRec := func(typ uint16, body string) {
+		c.Recs = append(c.Recs, coal.Rec{Typ: typ, Seq: seq, Ms: ms, Body: body})
+	}
 	_, sbody := coGenBody(rng, coKSyscall, 0)
 	addRec(tSYSCALL, sbody)
 	switch shape {
